@@ -270,3 +270,21 @@ n
 ;=> ()
 (kw 1)
 ;=> !
+(- #f 1)
+;=> !
+(- 'a 1)
+;=> !
+(- "s")
+;=> !
+(- 5 #f)
+;=> !
+(- 10 3 #t 1)
+;=> !
+(+ 1 #f)
+;=> !
+(* #t 2)
+;=> !
+(sub1 #f)
+;=> !
+(map sub1 (list 4 #f 1))
+;=> !
